@@ -192,6 +192,11 @@ def parse_unit(path):
             u.notes.append(rest)
         elif d == "@trusted":
             u.trusted.append(rest)
+        elif d == "@include":
+            ip = os.path.join(VERIF, rest.strip())
+            if not os.path.exists(ip):
+                raise Undecided("include file missing: %s" % rest)
+            u.seq.append(("spec", "// ---- included: %s ----\n" % rest.strip() + open(ip).read()))
         elif d == "@spec":
             txt = []
             while i < len(lines) and lines[i].strip() != "@end":
